@@ -77,6 +77,18 @@ def restamp(data, times_ns):
     return bytes(buf)
 
 
+def stale_checksums(data, which):
+    """data with the stored CRC32 fields of some chunks no longer matching their contents: `which` = [(chunk index, field)]
+    with field 52 (event-records checksum) or 124 (chunk-header checksum). A log copied from a running system ("dirty")
+    looks like this; the records themselves are intact and readers that do not insist on the checksums read them all."""
+    buf = bytearray(data)
+    for (k, field) in which:
+        off = CHUNK0 + k * CHUNK
+        (v,) = struct.unpack_from("<I", buf, off + field)
+        struct.pack_into("<I", buf, off + field, v ^ 0x5A5A5A5A)
+    return bytes(buf)
+
+
 def gen_times(rng, recs, pattern):
     """a time for each record (ns, multiples of 100) by pattern"""
     orig = [filetime_to_ns(ft) for (_, _, ft) in recs]
